@@ -3,3 +3,5 @@ import OtelVerif.Props.C09
 import OtelVerif.Props.C11
 import OtelVerif.Props.C12
 import OtelVerif.Props.C14
+import OtelVerif.Props.C15
+import OtelVerif.Props.C16
